@@ -894,8 +894,15 @@ class BaseImage(metaclass=ImageMeta):
             raise
 
         fd, filepath = mkstemp("-" + os.path.basename(url), dir=_TEMP_DIR)
-        os.write(fd, response.content)
-        os.close(fd)
+        try:
+            try:
+                os.write(fd, response.content)
+            finally:
+                os.close(fd)
+        except BaseException:
+            # Leave nothing behind if the local copy cannot be written
+            os.remove(filepath)
+            raise
 
         new._source = filepath
         new._source_type = ImageSource.URL
